@@ -138,6 +138,8 @@ class Shape(str, Enum):
 
 class CodeGenerator(abc.ABC):
     variable_prefix = ""
+    # The formal parameter holding the missing variables (typed in C)
+    missing_variables_argument = "missing_variables"
 
     def __init__(
         self,
@@ -341,7 +343,7 @@ class CodeGenerator(abc.ABC):
 
         arguments = rhs.arguments
         if self._missing_variables:
-            arguments += ["missing_variables"]
+            arguments += [self.missing_variables_argument]
 
         values_lst = []
         # The index of a state is its position in sorted_states (as in state_index),
@@ -403,7 +405,7 @@ class CodeGenerator(abc.ABC):
 
         arguments = rhs.arguments
         if self._missing_variables:
-            arguments += ["missing_variables"]
+            arguments += [self.missing_variables_argument]
 
         values_lst = []
         index = 0
@@ -448,7 +450,7 @@ class CodeGenerator(abc.ABC):
 
         arguments = rhs.arguments
         if self._missing_variables:
-            arguments += ["missing_variables"]
+            arguments += [self.missing_variables_argument]
 
         values_lst = []
         N = len(values)
@@ -513,7 +515,7 @@ class CodeGenerator(abc.ABC):
 
         arguments = rhs.arguments
         if self._missing_variables:
-            arguments += ["missing_variables"]
+            arguments += [self.missing_variables_argument]
 
         dt = sympy.Symbol("dt")
         eqs = f(
